@@ -55,6 +55,7 @@ func c09Scenarios(r *vmc.Result) []rtScenario {
 			Seqs: s2, Metrics: m3, LoopAdv: true, LocalKeys: []string{"web"}, LocalMet: m2[1:]}),
 		rtMkScenario("a-metric", vmc.Pick(r, 4, 5), p2, rtAlpha{Tbl: 'a', Keys: o2, Peers: p2, Origins: o2, Seqs: s2, Metrics: m3, LoopAdv: true}),
 	}
+	scs = append(scs, c09RemovalScenarios(r)...)
 	if thorough {
 		scs = append(scs,
 			// agent routes whose origin differs from the target agent (the API allows it; the mesh never sends it)
@@ -66,9 +67,52 @@ func c09Scenarios(r *vmc.Result) []rtScenario {
 	return scs
 }
 
+// c09RemovalScenarios is the family "three routes in one slot, then removals".
+//
+// The per-pattern / per-key / per-agent slices are kept sorted by the insert path only;
+// every removal path has to preserve that order on its own. With at most two routes in a
+// slot every way of deleting an element leaves the same slice, so the base scenarios
+// (two origins, or one origin plus the local route, per slot within their depth) cannot
+// tell an order-preserving removal from one that is not. Here one slot holds up to
+// three entries (domain, forward: three remote origins, or two remote origins plus the
+// agent's own local route; agent table: one origin heard over three neighbours), and
+// the alphabet contains every removal the real Manager offers:
+//
+//	wd    <Table>.RemoveRoute(key, origin)            one origin's entry (any position)
+//	reml  Manager.RemoveLocalDomainRoute / ...Forward  the agent's own metric-0 entry (always in front)
+//	disc  Manager.HandlePeerDisconnect*(peer)          every entry learned over one of two / three neighbours
+//	tick + clean  Manager.CleanupStale*Routes          every entry not refreshed since the tick
+//
+// The remote-only scenarios carry no unbounded counter and run to the fixpoint: every
+// combination of (absent | next hop x metric x fresh/stale) per origin in every slice
+// order the real code can produce, and from each of them every removal. The oracle is
+// the unchanged reference of this check, evaluated in every reached state.
+func c09RemovalScenarios(r *vmc.Result) []rtScenario {
+	p2 := []string{"P1", "P2"}
+	o2, o3 := []string{"O1", "O2"}, []string{"O1", "O2", "O3"}
+	s1, s2 := []uint64{1}, []uint64{1, 2}
+	m0, m2, m3 := []uint16{0}, []uint16{1, 2}, []uint16{1, 2, 3}
+	seqs := vmc.Pick(r, s1, s2) // thorough: a newer sequence may also raise the metric of a stored entry
+	localDepth := vmc.Pick(r, 6, 9)
+	return []rtScenario{
+		rtMkScenario("d3-exact", 0, p2, rtAlpha{Tbl: 'd', Keys: []string{"a.com"}, Peers: p2, Origins: o3, Seqs: seqs, Metrics: m3}),
+		rtMkScenario("d3-wild", 0, p2, rtAlpha{Tbl: 'd', Keys: []string{"*.A.com"}, Peers: p2, Origins: o3, Seqs: seqs, Metrics: m3}),
+		// this agent is itself an exit for the pattern (metric 0, as the configuration loader adds it) while two remote exits advertise it too
+		rtMkScenario("d3-local-exact", localDepth, p2, rtAlpha{Tbl: 'd', Keys: []string{"a.com"}, Peers: p2, Origins: o2, Seqs: s1, Metrics: m2,
+			LocalKeys: []string{"a.com"}, LocalMet: m0}),
+		rtMkScenario("d3-local-wild", localDepth, p2, rtAlpha{Tbl: 'd', Keys: []string{"*.a.com"}, Peers: p2, Origins: o2, Seqs: s1, Metrics: m2,
+			LocalKeys: []string{"*.a.com"}, LocalMet: m0}),
+		rtMkScenario("f3", 0, p2, rtAlpha{Tbl: 'f', Keys: []string{"web"}, Peers: p2, Origins: o3, Seqs: seqs, Metrics: m3}),
+		rtMkScenario("f3-local", localDepth, p2, rtAlpha{Tbl: 'f', Keys: []string{"web"}, Peers: p2, Origins: o2, Seqs: s1, Metrics: m2,
+			LocalKeys: []string{"web"}, LocalMet: m0}),
+		// the agent table keeps one entry per (origin, next hop): O1's presence heard over three neighbours (the third neighbour is named O3)
+		rtMkScenario("a3", 0, []string{"P1", "P2", "O3"}, rtAlpha{Tbl: 'a', Keys: []string{"O1"}, Peers: []string{"P1", "P2", "O3"}, Origins: []string{"O1"}, Seqs: seqs, Metrics: m3}),
+	}
+}
+
 func TestVerif_C09(t *testing.T) {
 	r := vmc.New("C09", "model_checking")
-	r.Rule = "BFS over histories of advertise/remove/disconnect/tick/cleanup/local operations on a real routing.Manager; in every reached state LookupDomain (11 probes: case variants, one and two labels below a wildcard base, leading/trailing dot, suffix-only look-alike), LookupForward (5 probes) and LookupAgent (3 probes) are compared with a brute-force reference over the dumped tables. An evaluation (state, probe) is non-trivial when the reference has to choose: an exact and a wildcard pattern both match, or the chosen pattern/key holds at least two routes, or a wildcard with the probe's suffix is stored but must not match; distinct = distinct (table, probe, candidate metrics in stored order, wildcard situation)"
+	r.Rule = "BFS over histories of advertise/remove/disconnect/tick/cleanup/local operations on a real routing.Manager; in every reached state LookupDomain (11 probes: case variants, one and two labels below a wildcard base, leading/trailing dot, suffix-only look-alike), LookupForward (5 probes) and LookupAgent (3 probes) are compared with a brute-force reference over the dumped tables. The family d3-*/f3*/a3 puts up to three routes (three remote origins, two remote origins plus the local route, one origin over three neighbours) into ONE pattern / key / agent slot and contains every removal the Manager offers (RemoveRoute by origin, RemoveLocal*Route, peer disconnect = by next hop, stale cleanup), to the fixpoint where no counter is involved. An evaluation (state, probe) is non-trivial when the reference has to choose: an exact and a wildcard pattern both match, or the chosen pattern/key holds at least two routes, or a wildcard with the probe's suffix is stored but must not match; distinct = distinct (table, probe, candidate metrics in stored order, wildcard situation)"
 	r.Assume("a wildcard matches exactly one non-empty label; patterns are those ParseDomainPattern recognises (prefix \"*.\"), without surrounding white space")
 	r.Assume("time is owned by rewriting LastUpdate in-package (tick = -1000 h) and passing maxAge = 500 h; a single history replay takes far less than 500 h of real time")
 	col := rtNewCollector()
